@@ -216,12 +216,20 @@ structure StrStore where
 
 def StrStore.init : StrStore := ⟨[]⟩
 
+/-- size of the uint32 that `*(*uint32)(unsafe.Pointer(&buf[i]))` stores / loads (a property of the
+    type, not the constant `strlenSize`, which is only the distance from the entry to its bytes) -/
+def u32Size : Nat := 4
+
+/-- one entry header: the uint32 length, then the `strlenSize - 4` bytes between it and the string
+    (none today; Load never writes them — zero in a fresh buffer — and Get never reads them) -/
+def hdr (n : Nat) : Bytes := le32 n ++ List.replicate (Facts.strlenSize - u32Size) 0
+
 /-- the packing loop of Load: (buffer bytes, indexes) starting at `offset` -/
 def packLoop : List Bytes → Nat → Bytes × List Int
   | [], _ => ([], [])
   | s :: r, off =>
     let t := packLoop r (off + Facts.strlenSize + s.length)
-    (le32 (s.length % two32) ++ s ++ t.1, (off : Int) :: t.2)
+    (hdr (s.length % two32) ++ s ++ t.1, (off : Int) :: t.2)
 
 /-- `StrStore.Load(ss)`; every byte of `buf[:totalLen]` is overwritten, so the previous buffer does
     not matter -/
@@ -236,7 +244,7 @@ def storeGet (st : StrStore) (idx : Int) : Out LErr Bytes :=
   if idx < 0 ∨ idx ≥ st.buf.length then .ok []
   else
     let i := idx.toNat
-    if i + Facts.strlenSize > st.buf.length then .oob      -- unsafe 4-byte load past the slice
+    if i + u32Size > st.buf.length then .oob      -- unsafe 4-byte load past the slice
     else
       let length := rdle32 (st.buf.drop i)
       if i + Facts.strlenSize + length > st.buf.length then .panic "slice"
